@@ -241,6 +241,11 @@ def run(run_, tier):
         run_.function(f"mici.matrices.{c}.grad_log_abs_det")
         run_.function(f"mici.matrices.{c}.grad_quadratic_form_inv")
     run_.replay_for("", lambda w: {"script": "c11_gradients.py", "args": [json.dumps(w or {})], "timeout": 600})
+    run_obligations(run_)
+
+
+def run_obligations(run_, keep=None):
+    """all gradient obligations (or the subset selected by keep(oid)); other properties import subsets (C05: SoftAbs metric class)"""
     M = load()
     with shimmed(M):
         n = len(cases(M))
@@ -249,6 +254,8 @@ def run(run_, tier):
         results = pool.map(_work, list(range(n + 2)), chunksize=1)
     for obs in results:
         for oid, st, be, secs, detail, wit in obs:
+            if keep is not None and not keep(oid):
+                continue
             if st == "bounded-ok":
                 run_.ob(oid, core.DISCHARGED, be, secs, detail=detail, klass="bounded")
             else:
